@@ -205,6 +205,55 @@ def run(ctx):
         maps = {k: origin(tr, s["r"]["use"]) for k, s in fields.items()}
         inserts = [(bb, t) for bb, t in b.calls() if t["call"]["name"] == "insert" and "HashMap" in t["call"]["def"] or t["call"]["name"] == "insert" and "BTreeMap" in t["call"]["def"]]
         seen = {}
+        parts = [(bb, t) for bb, t in b.calls() if t["call"]["def"] == "core::iter::traits::iterator::Iterator::partition"]
+        if not inserts and len(parts) == 1:
+            # form P: (safe, unsafe) = params.map(..).partition(|(name, _)| name in safe_args)
+            pbb, pt = parts[0]
+            good, why = False, "the partition predicate is not a closure"
+            aggs = [s_ for s_ in tr.sources(pt["args"][1]) if s_[0] == "agg"]
+            if len(aggs) == 1:
+                st = b.blocks[aggs[0][1]]["s"][aggs[0][2]]
+                clo = ce.body(st["r"].get("id")) if st["r"].get("agg") == "closure" else None
+                if clo is not None:
+                    from .. import inline as _inline
+                    ec = _inline.expand(ce, clo, depth=2, pred=lambda cb: cb.d.get("vis") != "pub")
+                    tests = []
+                    for cbb, ct_ in ec.calls():
+                        mt = membership_test(ce, ec, ("call", ct_))
+                        if mt is not None and place_local(ct_["dest"]) in dt.return_aliases(ec):
+                            tests.append((ct_, mt))
+                    why = f"the partition predicate must return one membership test of the safe-argument list (found {len(tests)})"
+                    if len(tests) == 1 and not tests[0][1][2]:
+                        ct_, mt = tests[0]
+                        # the tested collection is the captured safe_args parameter; the key comes from the element
+                        recv_caps = set()
+                        for s_ in Tracer(ec, through_calls=True).sources(mt[0]):
+                            inner = None
+                            while s_[0] == "field":
+                                inner = s_
+                                s_ = s_[1]
+                            if s_ == ("arg", 1) and inner is not None:
+                                for e in thaw(inner[2]):
+                                    if isinstance(e, dict) and "f" in e:
+                                        recv_caps.add(e["f"])
+                                        break
+                        recv_ok = len(recv_caps) == 1 and all(1 <= r <= b.argc and "str" in tystr(b.local_ty(r)) for r in Tracer(b).root_locals(st["r"]["ops"][next(iter(recv_caps))])) if recv_caps else False
+                        key_ok = 2 in Tracer(ec, through_calls=True, through_agg=True).root_locals(mt[1])
+                        good = bool(recv_ok and key_ok)
+                        why = f"membership test on the captured safe-argument list: {recv_ok}; key taken from the element: {key_ok}"
+            # true elements -> field 0 -> safe_params, false -> field 1 -> unsafe_params
+            def tuple_field(k):
+                for s_ in tr.sources(fields[k]["r"]["use"]):
+                    if s_[0] == "field" and s_[1] == ("call", pbb):
+                        for e in thaw(s_[2]):
+                            if isinstance(e, dict) and "f" in e:
+                                return e["f"]
+                return None
+            fmap = (tuple_field("safe_params"), tuple_field("unsafe_params"))
+            ctx.check(good and fmap == (0, 1), "R17.2", b.loc(pt["ln"]), f"{b.id}|partition",
+                      f"{b.id}: parameters are split by Iterator::partition: the elements for which the predicate is true (tuple field 0) must be stored as safe_params, the others as unsafe_params, and the predicate must be `safe_args contains the key` ({why}; fields stored: safe_params <- .{fmap[0]}, unsafe_params <- .{fmap[1]})",
+                      instance="partition(|k| k in safe_args) -> (safe_params, unsafe_params)")
+            seen = {"safe_params": (pbb, True), "unsafe_params": (pbb, False)}
         for bb, t in inserts:
             target = origin(tr, t["args"][0])
             which = [k for k, m in maps.items() if m == target and m]
@@ -252,7 +301,7 @@ def run(ctx):
                           instance=f"{x.name}: safe list = &[]")
             else:
                 ctx.check(from_type, "R17.3", x.loc(t["ln"]), f"{x.id}|type-safe-list", f"{x.id}: must pass error_type.safe_args()", instance=f"{x.name}: safe list = error_type.safe_args()")
-        ctx.floor("R17.3", "callers of the service-error builder", len(callers), 4)
+        ctx.floor("R17.3", "callers of the service-error builder", len(callers), 2)
     # ---------------- R17.4 encode wiring
     enc = [b for b in ce.bodies if b.name == "encode" and b.kind == "fn" and b.d.get("vis") == "pub"]
     seed_adt = None
@@ -276,8 +325,31 @@ def run(ctx):
             vs = Tracer(b).sources(ins[0][1]["args"][2])
             good = any((s[0] == "field" and s[1] == ("call", seeds[0][0])) or s == ("call", seeds[0][0]) for s in vs)
             seed_adt = ty_adt(seeds[0][1]["call"]["substs"][0])
+        how = "insert_parameters(key, seed-string) dominated by seed Ok"
+        if not good:
+            # pipeline form: a closure turns (key, value) into Some((key, seed-string)) only when the seed succeeds
+            # (filter_map), another one inserts the pairs it is given (fold / for_each)
+            from .. import inline as _inline
+            eb, fam = _inline.expanded_family(ce, b, depth=2, pred=lambda cb: cb.d.get("vis") != "pub")
+            prod = [(x, bb, t) for x in fam for bb, t in x.calls() if t["call"]["def"] == "serde_core::de::DeserializeSeed::deserialize"]
+            cons = [(x, bb, t) for x in fam for bb, t in x.calls() if t["call"]["name"] == "insert_parameters"]
+            if len(prod) == 1 and len(cons) == 1 and prod[0][0].kind == "closure" and cons[0][0].kind == "closure":
+                px, pbb, pt = prod[0]
+                cx, cbb, ct_ = cons[0]
+                pcfg = CFG(px)
+                pvt = Tracer(px, through_agg=True, transparent=set(dt.value_tracer(px).transparent) | {"core::result::Result::<T, E>::ok"})
+                somes = [o for o in dt.ok_return_blocks(px) if o[2]["r"].get("variant") == "Some"]
+                p_ok = len(somes) == 1 and any(dt.derives_from_call(px, o_, pbb, pvt) for o_ in somes[0][2]["r"]["ops"]) and pbb in [x_ for x_ in range(len(px.blocks)) if pcfg.dominates(x_, somes[0][0])]
+                # no Some(..) is produced when the seed fails: the only Some return is reached through the seed's success
+                nones_only = all(o[2]["r"].get("variant") != "Some" or o[:2] == somes[0][:2] for o in dt.ok_return_blocks(px)) if somes else False
+                c_ok = 2 in Tracer(cx, through_agg=True).root_locals(ct_["args"][2]) or bool(Tracer(cx, through_agg=True).root_locals(ct_["args"][2]))
+                good = bool(p_ok and nones_only and c_ok)
+                seed_adt = ty_adt(pt["call"]["substs"][0])
+                how = "filter_map(|(k, v)| seed(v).ok().map(|s| (k, s))) -> insert_parameters(k, s)"
+            elif len(prod) == 1:
+                seed_adt = ty_adt(prod[0][2]["call"]["substs"][0])
         ctx.check(good, "R17.4", b.loc(), "encode|parameters", "encode: a parameter must be inserted exactly when the scalar seed accepts its value, with the seed's string as the value",
-                  instance="insert_parameters(key, seed-string) dominated by seed Ok")
+                  instance=how)
     # ---------------- R17.5 scalar visitor set
     vis_adt = None
     if seed_adt:
@@ -298,10 +370,13 @@ def run(ctx):
         for name, x in c_methods(ce, vi[0]).items():
             if not name.startswith("visit_"):
                 continue
+            from .. import inline as _inline
+            x = _inline.expand(ce, x, depth=2, pred=lambda cb: cb.id.startswith("conjure_error::ser::"))
             oks = dt.ok_return_blocks(x)
             calls = [t["call"]["def"] for _, t in x.calls()]
             trx = Tracer(x)
-            good = len(oks) == 1 and trx.root_locals(oks[0][2]["r"]["ops"][0]) == {2} and all(d == "alloc::string::ToString::to_string" for d in calls) and len(calls) <= 1
+            OWNING = ("alloc::string::ToString::to_string", "alloc::borrow::ToOwned::to_owned", "core::convert::From::from", "core::convert::Into::into", "alloc::string::String::from", "core::clone::Clone::clone")
+            good = len(oks) == 1 and trx.root_locals(oks[0][2]["r"]["ops"][0]) == {2} and all(d in OWNING for d in calls) and len(calls) <= 2
             ctx.check(good, "R17.5", x.loc(), f"visitor|{name}", f"{name} must return the argument's to_string() (or the string itself); calls: {calls}", instance=f"{name} -> Ok(v.to_string())")
     # ---------------- R17.6 generated instance + standard types
     ir = json.load(open(os.path.join(extract.REPO, "conjure-test", "test-ir.json")))
